@@ -452,8 +452,8 @@ class World:
             name = name.decode('latin1'); rel = rel.decode('latin1')
         if name.startswith('.'):
             return True
-        if disk == 'd1' and rel == '' and name.startswith('snapraid.content'):
-            return True
+        if disk == 'd1' and rel == '' and name in ('snapraid.content', 'snapraid.content.tmp', 'snapraid.content.lock'):
+            return True           # filter_content: exactly the content file, its .tmp and its .lock -- not their other siblings
         if isdir:
             return rel == '' and name == 'exdir'
         return name.endswith('.tmp')
